@@ -208,18 +208,31 @@ def c16(tier, seed, replay_path=None):
     dbd = c.sub("c16db")
     out = os.path.join(d, "C16.res")
     inst = 4 if tier == "quick" else 40
-    p = c.run_harness(binary, {"VERIF_OP": "apierr", "VERIF_IN": tbl, "VERIF_OUT": out, "VERIF_DB": os.path.join(dbd, "e.db"), "VERIF_SEED": seed,
-                               "VERIF_INSTANCES": inst}, cwd=dbd)
-    if p.returncode != 0 or not os.path.exists(out):
-        raise c.Infra("apierr harness failed: %s %s" % (p.stdout[-1500:], p.stderr[-1500:]))
-    res = json.load(open(out))
-    agg = {"behaviours": res["behaviours"], "steps": res["steps"], "queries": res["queries"], "mismatches": res.get("mismatches") or [],
-           "samples": res.get("samples") or [], "crashed": [], "stats": res.get("stats") or {}}
+    # two stores: (0) a fork and an orphan chain below the tip; (1) the highest stored headers are NOT on the longest chain
+    # (a taller but lighter stale branch, an orphan chain longer than the main chain)
+    agg = None
+    for store in (0, 1):
+        p = c.run_harness(binary, {"VERIF_OP": "apierr", "VERIF_IN": tbl, "VERIF_OUT": out, "VERIF_DB": os.path.join(dbd, "e%d.db" % store), "VERIF_SEED": seed,
+                                   "VERIF_INSTANCES": inst, "VERIF_STORE": store}, cwd=dbd)
+        if p.returncode != 0 or not os.path.exists(out):
+            raise c.Infra("apierr harness failed: %s %s" % (p.stdout[-1500:], p.stderr[-1500:]))
+        res = json.load(open(out))
+        os.unlink(out)
+        for m in res.get("mismatches") or []:
+            m["exp"] = "[store %d] %s" % (store, m["exp"])
+        if agg is None:
+            agg = {"behaviours": res["behaviours"], "steps": 0, "queries": 0, "mismatches": [], "samples": res.get("samples") or [], "crashed": [], "stats": {}}
+        agg["steps"] += res["steps"]
+        agg["queries"] += res["queries"]
+        agg["mismatches"] += res.get("mismatches") or []
+        for k, x in (res.get("stats") or {}).items():
+            agg["stats"][k] = agg["stats"].get(k, 0) + x
+    res = {"queries": agg["queries"] // 2}
     if nrows < 150 or res["queries"] < (nrows - 2) * inst:
         raise c.Infra("vacuous run: %d rows, %d requests" % (nrows, res["queries"]))
     v = simple_verdict("C16", agg, [r], {"rows": nrows, "instances_per_row": inst, "exhaustive": False,
                        "rule": "the full product of parameter classes per route (ApiErrors.tla, emitted by TLC) x several grammar-generated concrete requests per class, "
-                               "on a store with a fork and an orphan chain; oracle: never 5xx, status family as owed, body exactly one JSON value, 4xx with code+message, headers digest unchanged"})
+                               "on a store with a fork and an orphan chain and on a store whose highest headers are stale / orphan; also with authentication on and every kind of Authorization header but a valid one; oracle: never 5xx, status family as owed, body exactly one JSON value, 4xx with code+message, headers digest unchanged"})
     v["level"] = "exploration"
     v["coverage"]["evaluations"] = res["queries"]
     v["coverage"]["distinct_nontrivial"] = nrows
